@@ -37,6 +37,7 @@ import (
 	"github.com/krotik/ecal/interpreter"
 	"github.com/krotik/ecal/parser"
 	"github.com/krotik/ecal/stdlib"
+	"github.com/krotik/ecal/verifhook"
 )
 
 // ---------------------------------------------------------------- program trees
@@ -441,6 +442,42 @@ func c12Exec(payload string) string {
 	}
 	run.meetC = sync.NewCond(&run.meetMu)
 	c12cur = run
+	// protocol events of mutexRuntime.Eval (instrumentation points of hooks/C12.patch, if the
+	// tree has them): recorded into the same trace as the enter/exit calls
+	verifhook.SetHandler(func(point string, args ...interface{}) {
+		if !strings.HasPrefix(point, "mutex.") || len(args) < 2 {
+			return
+		}
+		tid, _ := args[0].(uint64)
+		name := fmt.Sprint(args[1])
+		tok := ""
+		switch point {
+		case "mutex.look":
+			tok = fmt.Sprintf("k%d%s%d", tid, name, args[2])
+		case "mutex.decide":
+			if re, _ := args[2].(bool); re {
+				tok = fmt.Sprintf("d%dr", tid)
+			} else {
+				tok = fmt.Sprintf("d%dl", tid)
+			}
+		case "mutex.lock":
+			tok = fmt.Sprintf("l%d", tid)
+		case "mutex.setowner":
+			tok = fmt.Sprintf("s%d", tid)
+		case "mutex.bodyend":
+			tok = fmt.Sprintf("b%d", tid)
+		case "mutex.reset":
+			tok = fmt.Sprintf("r%d", tid)
+		case "mutex.unlock":
+			tok = fmt.Sprintf("u%d", tid)
+		default:
+			return
+		}
+		run.mu.Lock()
+		run.trace = append(run.trace, tok)
+		run.mu.Unlock()
+	})
+	defer verifhook.SetHandler(nil)
 	run.fin = func() {} // set below
 
 	nSink, nDirect := 0, 0
@@ -927,6 +964,14 @@ func init() {
 				emit("D", n, 3, "a!r()|c!n()")
 				emit("D", n, 3, "bn(b!b())|cn(c!e())")
 				g.Count("rendezvous")
+			}
+			// … and with sinks: as many events as workers, so all sink executions are alive at once
+			// and the order in which the workers take the events does not matter
+			for _, n := range []int{2, 4, 8, 16} {
+				emit("S", n, 1, "a!n()|b!n()")
+				emit("S", n, 1, "a!r()|c!e()")
+				emit("S", n, 1, "bn(b!b())|c!n()")
+				g.Count("rendezvous in sinks")
 			}
 			// an error / a Go panic that ENDS the thread while it holds the lock (nested too)
 			for _, mode := range []string{"D", "S", "M", "L"} {
